@@ -396,6 +396,8 @@ class FnExec:
         for a, d in zip(args.kwonlyargs, args.kw_defaults):
             if d is not None:
                 defaults[a.arg] = d
+        if args.vararg is not None:
+            params.append(args.vararg.arg)
         if self.c.start_at_loop is not None:
             params = list(self.c.types)      # the locals live at the start of the verified region
         for p in params:
@@ -1339,30 +1341,40 @@ class FnExec:
                 yield st2, (vs if isinstance(vs, Raised) else SV("cdict", list(zip(ks, vs))))
 
     def e_JoinedStr(self, node, st):
-        """f-strings: exact for str pieces without conversion / format spec; anything else (exception messages with
-        !r, numbers ...) yields an opaque text"""
-        parts = []
+        """f-strings: exact for str pieces without conversion / format spec (the pieces may fork, e.g. a helper
+        call with branches); anything else (exception messages with !r, numbers ...) yields an opaque text"""
+        exprs = []
         for v in node.values:
-            if isinstance(v, ast.Constant) and isinstance(v.value, str):
-                parts.append(z3.StringVal(v.value))
-            elif isinstance(v, ast.FormattedValue) and v.conversion == -1 and v.format_spec is None:
-                try:
-                    sv = self.ev1(v.value, st)
-                except Unsupported:
-                    sv = None
-                if sv is None or sv.kind != "str":
+            if isinstance(v, ast.FormattedValue):
+                if v.conversion != -1 or v.format_spec is not None:
                     yield st, SV("const", "<f-string>")
                     return
-                parts.append(sv.t)
+                exprs.append(v.value)
+        try:
+            outs = list(self.ev_list(exprs, st))
+        except Unsupported:
+            yield st, SV("const", "<f-string>")
+            return
+        for st1, vals in outs:
+            if isinstance(vals, Raised):
+                yield st1, vals
+                continue
+            if any(x.kind != "str" for x in vals):
+                yield st1, SV("const", "<f-string>")
+                continue
+            it = iter(vals)
+            parts = []
+            for v in node.values:
+                if isinstance(v, ast.Constant) and isinstance(v.value, str):
+                    parts.append(z3.StringVal(v.value))
+                else:
+                    parts.append(next(it).t)
+            if not parts:
+                yield st1, sv_str("")
+            elif len(parts) == 1:
+                yield st1, sv_str(parts[0])
             else:
-                yield st, SV("const", "<f-string>")
-                return
-        if not parts:
-            yield st, sv_str("")
-        elif len(parts) == 1:
-            yield st, sv_str(parts[0])
-        else:
-            yield st, sv_str(z3.Concat(*parts))
+                yield st1, sv_str(z3.Concat(*parts))
 
     def e_IfExp(self, node, st):
         for st1, c in self.ev_cond(node.test, st):
